@@ -99,6 +99,18 @@ def _downgrade_opaque(prog: Program, res: Result) -> None:
         for q in f.context:
             if q in prog.functions:
                 reasons += prog.opaque_context(prog.functions[q])
+        if "<specialised>" in f.context:
+            # the rule read the method with its class level configuration
+            # resolved for the receiver's class (Program.specialise)
+            def resolvable(r: str) -> bool:
+                if not r.startswith("reads the table "):
+                    return False
+                rhs = r[len("reads the table "):].split(":=")[1]
+                if "." not in rhs:
+                    return False
+                cname, attr = rhs.split(".")[0], rhs.split(".")[-1]
+                return prog.class_constant(cname, attr) is not None
+            reasons = [r for r in reasons if not resolvable(r)]
         if reasons and _standing(prog, f, reasons):
             keep.append(f)
             continue
